@@ -20,7 +20,7 @@ EXPLANATION = (
     "(domain value table, finite-range and integer encoders) is applied to a round-half-even result, never truncates. NOT decided: numeric membership after exp(log(.)), ±0.5 integer rounding, "
     "1e-7 round trip, nearest-neighbour ties.")
 
-FLOOR = {"S1": 6, "S2": 5, "S3": 8, "S4": 3, "S5": 6}
+FLOOR = {"S1": 6, "S2": 5, "S3": 8, "S4": 3, "S5": 6, "S6": 4}
 
 
 # ----------------------------------------------------------------------------- S1
@@ -504,9 +504,29 @@ def s5(ctx, rep):
                 "members and the round trip of a member fails")
 
 
+def s6(ctx, rep):
+    """a numeric bound that was not given is recognised by `is None`: 0 is a legal bound"""
+    from .common import numeric_optional_params, truthiness_uses
+    P = ctx.P
+    n = 0
+    for f in sorted(P.functions.values(), key=lambda f: f.qualname):
+        if f.module.relpath not in ("syne_tune/optimizer/schedulers/searchers/utils/hp_ranges_impl.py", "syne_tune/config_space.py",
+                                    "syne_tune/optimizer/schedulers/searchers/utils/hp_ranges.py"):
+            continue
+        for p_ in numeric_optional_params(f):
+            n += 1
+            uses = truthiness_uses(f, p_)
+            rep.put(not uses, "S6", "guarded_by", f"{f.short}: optional number `{p_}` is tested with `is None`, not for truth", f, uses[0] if uses else None, "",
+                    f"`{U(uses[0])[:70] if uses else ''}` treats `{p_} = 0` as 'not given': a range whose active bound (or bound) is 0 gets the "
+                    "default instead, so encoded vectors inside the advertised box decode outside the (active) domain")
+    if n < 4:
+        raise AnchorError(f"C07-S6: only {n} optional numeric parameters found in the domain / range modules (4 confirmed)")
+
+
 def run(ctx, rep, tier="quick"):
     s5(ctx, rep)
     s1(ctx, rep)
     s2(ctx, rep)
     s3(ctx, rep)
     s4(ctx, rep)
+    s6(ctx, rep)
